@@ -5,13 +5,13 @@ import (
 	"encoding/json"
 	"errors"
 	"fmt"
+	"github.com/metal-toolbox/audito-maldito/internal/verif/mc"
 	"sort"
 	"strings"
 	"time"
 
 	"github.com/metal-toolbox/auditevent"
 	"github.com/prometheus/client_golang/prometheus"
-	"go.uber.org/zap"
 
 	"github.com/metal-toolbox/audito-maldito/ingesters/syslog"
 	"github.com/metal-toolbox/audito-maldito/internal/common"
@@ -19,7 +19,7 @@ import (
 	"github.com/metal-toolbox/audito-maldito/processors/sshd"
 )
 
-func init() { sshd.SetLogger(zap.NewNop().Sugar()) }
+func init() { sshd.SetLogger(mc.DebugLogger()) }
 
 const (
 	nodeName  = "node-under-test"
